@@ -126,6 +126,8 @@ def history_sig(job, upto=None):
     sig = {'lk': job['lk'], 'disk0': job['disk0'], 'layout': job['layout'], 'ops': ops}
     if job.get('back'):
         sig['back'] = job['back']
+    if job.get('pad'):
+        sig['pad'] = True
     return sig
 
 
@@ -199,6 +201,8 @@ def run(tier, replay=None):
         ck.extra['histories_with_import_cycle'] = len(cyc)
         for i, j in enumerate(jobs):
             j['id'] = i
+            if i % 3 == 1:
+                j['pad'] = True      # all versions of a module have the same size on disk
         results = run_workers(jobs, wd)
         byid = {r['id']: r for r in results}
         cases = []
